@@ -956,6 +956,44 @@ func runC16(r *Run) {
 		}
 		r.Floor("R16", "caller-chosen maxRetrieve arguments in precompiles", nMax, 1)
 	}
+	r.Rule("R17", "PATH.active-precompiles-exist: every EVM message builds its precompile map from Params.ActivePrecompiles, and the keeper panics on an address it cannot instantiate — so a parameter set is stored from outside (UpdateParams, InitGenesis) only after every listed address passed IsAvailablePrecompile: a governance update or a genesis naming a precompile this chain does not have (the upstream vesting precompile at 0x…0803) otherwise makes every precompile call fail, with the whole gas limit charged, where the native messages keep working")
+	for _, id := range []string{"(*x/evm/keeper.Keeper).UpdateParams", "x/evm.InitGenesis"} {
+		fn, ok := P.FnOK(id)
+		if !ok {
+			r.Bad("R17", "anchor/"+id, "", "not found")
+			continue
+		}
+		isAvail := isCallMatching(func(ci CallInfo) bool { return ci.Name == "IsAvailablePrecompile" })
+		isSet := isCallMatching(func(ci CallInfo) bool { return ci.Name == "SetParams" })
+		// the test sits in a loop over the listed addresses (an empty list passes trivially), before the store
+		var w []ssa.Instruction
+		avail := findCalls(fn, func(ci CallInfo) bool { return ci.Name == "IsAvailablePrecompile" })
+		sets := findCalls(fn, func(ci CallInfo) bool { return ci.Name == "SetParams" })
+		orderOK := len(avail) > 0 && len(sets) > 0
+		for _, a := range avail {
+			for _, st := range sets {
+				if !instrMayPrecede(a, st) || instrMayPrecede(st, a) {
+					orderOK = false
+				}
+			}
+		}
+		_ = isAvail
+		// … and the check has teeth: its failing side does not reach SetParams
+		teeth := false
+		for _, b := range fn.Blocks {
+			iff, isIf := lastIf(b)
+			if !isIf || !backSlice(iff.Cond).HasCall(func(g CallInfo) bool { return g.Name == "IsAvailablePrecompile" }) {
+				continue
+			}
+			for _, sc := range b.Succs {
+				if (PathQuery{Fn: fn, StartBlock: sc, Target: isSet}).Search() == nil {
+					teeth = true
+				}
+			}
+		}
+		r.Check(orderOK && teeth, "R17", fnID(fn)+"#active-precompiles-are-available", P.Pos(fnPos(fn)), "SetParams only after IsAvailablePrecompile, whose failing side never stores",
+			"a parameter set is stored without checking that every active precompile can be instantiated: one unknown address makes every later EVM message panic", P.witness(w)...)
+	}
 	// RunSetup
 	if rs, ok := P.FnOK("(precompiles/common.Precompile).RunSetup"); ok {
 		okMeter := false
